@@ -64,6 +64,8 @@ theorem repLeafY (n : Nat) : LeafY (RepIs n) where
   setStopping := by unfold setStopping; rep_same_tac
   setRestarting := by unfold setRestarting; rep_same_tac
   setLoopStop := fun b => by unfold setLoopStop; rep_same_tac
+  setSocketEvent := fun b => by unfold setSocketEvent; rep_same_tac
+  setSockReady := fun b => by unfold setSockReady; rep_same_tac
   clearDone := by unfold clearDone; rep_same_tac
   unregister := fun u => by unfold unregisterWatcher; rep_same_tac
   registerNew := fun w _ => by
